@@ -50,6 +50,22 @@ Inductive rtype :=
 
 Record row := mkRow { r_type : rtype; r_id : str; r_node_name : str; r_edges : list redge }.
 
+(* ---------------------------------------------------------------- how a row of a sheet is read *)
+(* A sheet is rectangular: a row that has fewer edges than the widest row has blank cells in the remaining edge
+   columns.  A blank cell is not an edge.  The first entry is always an edge (blank `from` = the preceding row, blank
+   condition = unconditional); every later entry that is blank throughout (`from` and all of the condition) is
+   padding and is not read - in a row of ANY type. *)
+Definition edge_trivial (e : redge) : bool :=
+  match e_from e with FBlank => cond_blank (e_cond e) | _ => false end.
+
+Definition drop_padding (es : list redge) : list redge :=
+  match es with
+  | [] => []
+  | e0 :: rest => e0 :: filter (fun e => negb (edge_trivial e)) rest
+  end.
+
+Definition read_row (r : row) : row := mkRow (r_type r) (r_id r) (r_node_name r) (drop_padding (r_edges r)).
+
 (* ---------------------------------------------------------------- state *)
 Record rnode := mkRNode { rn_actions : list sexp; rn_dec : option rdec; rn_cont : dest }.
 
@@ -189,6 +205,12 @@ Definition add_bucket (d : rdec) (name : str) (tgt : dest) : rdec :=
          end
   end.
 
+(* the arguments of the test an edge condition writes: the value; a has_group test names the group, whose uuid
+   (argument 0) is not the sheet's to fix - in a row of any type (a split_by_group row writes the same test
+   without naming its type) *)
+Definition ref_args (c : econd) : list (option str) :=
+  if str_eqb (c_type c) has_group_s then [None; Some (c_value c)] else [Some (c_value c)].
+
 Definition fresh_dec (operand : str) (w : wait_spec) (dflt : dest) : rdec :=
   mkDec false operand w None [] [] (CWild, dflt) None.
 
@@ -256,12 +278,12 @@ Definition apply_row_edge (n : rnode) (cls : eclass) (c : econd) (tgt : dest) : 
         if str_eqb lv s_no_response then Some (noresp_edge n d tgt)
         else Some (mkRNode (rn_actions n)
                            (Some (add_case no_args d (match c_variable c with [] => s_input_text | v => v end)
-                                           (c_type c) (c_value c) [Some (c_value c)] (c_cname c) tgt))
+                                           (c_type c) (c_value c) (ref_args c) (c_cname c) tgt))
                            (rn_cont n))
       | ESplit, Some d =>
         if str_eqb lv s_no_response then Some (noresp_edge n d tgt)
         else Some (mkRNode (rn_actions n)
-                      (Some (add_case no_args d (rd_operand d) (c_type c) (c_value c) [Some (c_value c)] (c_cname c) tgt))
+                      (Some (add_case no_args d (rd_operand d) (c_type c) (c_value c) (ref_args c) (c_cname c) tgt))
                       (rn_cont n))
       | EGroup, Some d =>
         if str_eqb lv s_no_response then Some (noresp_edge n d tgt)
@@ -277,13 +299,13 @@ Definition apply_row_edge (n : rnode) (cls : eclass) (c : econd) (tgt : dest) : 
                   | v => fresh_dec v WNone (rn_cont n)
                   end in
         Some (mkRNode (rn_actions n)
-                      (Some (add_case no_args d0 (rd_operand d0) (c_type c) (c_value c) [Some (c_value c)] (c_cname c) tgt))
+                      (Some (add_case no_args d0 (rd_operand d0) (c_type c) (c_value c) (ref_args c) (c_cname c) tgt))
                       DNone)
       | EAction, Some d =>
         let v := match c_variable c with [] => s_input_text | v => v end in
         if str_eqb lv s_no_response then Some (noresp_edge n d tgt) else
         Some (mkRNode (rn_actions n)
-                      (Some (add_case no_args d v (c_type c) (c_value c) [Some (c_value c)] (c_cname c) tgt))
+                      (Some (add_case no_args d v (c_type c) (c_value c) (ref_args c) (c_cname c) tgt))
                       (rn_cont n))
       | _, _ => None
       end
@@ -307,8 +329,9 @@ Definition node_loose (n : rnode) : bool :=
   let is_none d := match d with DNone => true | _ => false end in
   match rn_dec n with
   | None => is_none (rn_cont n)
-  | Some d => existsb (fun cd => is_none (snd cd)) (rd_cats d) || is_none (snd (rd_default d))
-              || match rd_noresp d with Some (_, x) => is_none x | None => false end
+  | Some d => if rd_random d then existsb (fun cd => is_none (snd cd)) (rd_cats d)      (* a random split has buckets only *)
+              else existsb (fun cd => is_none (snd cd)) (rd_cats d) || is_none (snd (rd_default d))
+                   || match rd_noresp d with Some (_, x) => is_none x | None => false end
   end.
 
 Fixpoint has_loose (fuel : nat) (s : st) (g : nat) : bool :=
@@ -342,9 +365,9 @@ Fixpoint connect_loose (fuel : nat) (s : st) (g : nat) (tgt : dest) : st :=
    names the operand (or is blank) is the decision's default branch *)
 Definition noop_case (no_args : str -> bool) (d : rdec) (c : econd) (tgt : dest) : rdec :=
   match c_value c with
-  | [] => if no_args (c_type c) then add_case no_args d (c_variable c) (c_type c) (c_value c) [Some (c_value c)] (c_cname c) tgt
+  | [] => if no_args (c_type c) then add_case no_args d (c_variable c) (c_type c) (c_value c) (ref_args c) (c_cname c) tgt
           else set_default d tgt
-  | _ => add_case no_args d (c_variable c) (c_type c) (c_value c) [Some (c_value c)] (c_cname c) tgt
+  | _ => add_case no_args d (c_variable c) (c_type c) (c_value c) (ref_args c) (c_cname c) tgt
   end.
 
 (* add_exit: an edge with condition c from group g to tgt *)
@@ -433,9 +456,6 @@ Fixpoint entry_node (fuel : nat) (s : st) (g : nat) : option nat :=
     end
   end.
 
-Definition edge_trivial (e : redge) : bool :=
-  match e_from e with FBlank => cond_blank (e_cond e) | _ => false end.
-
 Definition push_names (s : st) (name : str) (k : nat) : st :=
   match name with
   | [] => s
@@ -447,6 +467,10 @@ Definition alias_row (s : st) (rid : str) (g : nat) : st :=
   | [] => s
   | _ => mkSt (s_nodes s) (s_groups s) ((rid, g) :: s_rowmap s) (s_names s) (s_stack s)
   end.
+
+(* the actions a row may add to an existing node of the same name: those of an action row *)
+Definition merge_actions (cls : eclass) (actions : list sexp) : list sexp :=
+  match cls with EAction => actions | _ => [] end.
 
 Definition fold_edges (s : st) (es : list redge) (f : redge -> dest) : option st :=
   fold_left (fun os e => match os with Some s' => add_row_edge s' e (f e) | None => None end) es (Some s).
@@ -504,10 +528,11 @@ Definition step_row (s : st) (r : row) : option st :=
       end
   | TEndBlock => None      (* handled by run_rows, which knows the row id of the head *)
   | TNode cls actions dec0 =>
-    match r_node_name r, alookup (s_names s) (r_node_name r), actions with
+    match r_node_name r, alookup (s_names s) (r_node_name r), merge_actions cls actions with
     | _ :: _, Some k, _ :: _ =>
-      (* a row merged into an existing node through its node name: exactly one
-         unconditional edge, coming from a row whose node is that node *)
+      (* an ACTION row merged into an existing node through its node name: exactly one
+         unconditional edge, coming from a row whose node is that node (a row that brings a decision
+         of its own - a wait, a split, a sub-flow, a webhook - is a node of its own) *)
       match r_edges r with
       | [e] =>
         if negb (cond_blank (e_cond e)) then None
@@ -526,11 +551,8 @@ Definition step_row (s : st) (r : row) : option st :=
       end
     | _, _, _ =>
       let (s1, k) := add_node s (mkRNode actions dec0 DNone) in
-      (* ordinary rows skip an all-blank edge entry unless it is the first *)
-      let es := match r_edges r with
-                | [] => []
-                | e0 :: rest => e0 :: filter (fun e => negb (edge_trivial e)) rest
-                end in
+      (* (the edges of a row that was read with read_row are already free of padding: drop_padding is idempotent) *)
+      let es := drop_padding (r_edges r) in
       match fold_edges s1 es (fun _ => DNode k) with
       | None => None
       | Some s2 =>
@@ -608,11 +630,38 @@ Definition to_node (k : nat) (n : rnode) : node :=
     mkNode (nid k) acts exits (Some r)
   end.
 
-Definition to_flow (s : st) : flow :=
-  mkFlow [0%N] [] (map (fun kn => to_node (fst kn) (snd kn)) (number_from 0 (s_nodes s))).
+(* The nodes of the flow in SHEET order: the nodes of the row groups, block by block; the decision of a no_op stands
+   where the no_op row stands (it may come into being rows later).  The flow starts at its first node: "from the
+   first row on". *)
+Fixpoint gnodes (fuel : nat) (gs : list group) (g : nat) : list nat :=
+  match fuel with
+  | O => []
+  | S f =>
+    match nth_error gs g with
+    | Some (GRow k _) => [k]
+    | Some (GNoOp _ (Some k)) => [k]
+    | Some (GNoOp _ None) => []
+    | Some (GBlock ms) => flat_map (gnodes f gs) ms
+    | None => []
+    end
+  end.
 
-Definition rowsem (no_args : str -> bool) (rows : list row) : option flow :=
+Definition node_order (s : st) : list nat :=
+  flat_map (gnodes (S (length (s_groups s))) (s_groups s)) (concat (s_stack s)).
+
+Definition to_flow (s : st) : flow :=
+  mkFlow [0%N] [] (flat_map (fun k => match nth_error (s_nodes s) k with Some n => [to_node k n] | None => [] end) (node_order s)).
+
+(* the meaning of the rows AS READ (read_row: padding entries are not edges) *)
+Definition rowsem_read (no_args : str -> bool) (rows : list row) : option flow :=
   match run_rows no_args rows st0 [] with
+  | Some s => Some (to_flow s)
+  | None => None
+  end.
+
+(* the meaning of a sheet: its rows are read, then applied in order *)
+Definition rowsem (no_args : str -> bool) (rows : list row) : option flow :=
+  match run_rows no_args (map read_row rows) st0 [] with
   | Some s => Some (to_flow s)
   | None => None
   end.
